@@ -15,7 +15,7 @@
    quantified oracles. *)
 From Verif Require Import Base.Prelude Model.CharClass Model.FoldD
   Proofs.CharClassRanges Proofs.CharClassProofs Proofs.CharClassOverlap Proofs.CharClassElab
-  Proofs.CharClassFold Proofs.CharClassFoldThm Proofs.CharClassCi Proofs.CharClassCi2 Proofs.CharClassCi3.
+  Proofs.CharClassFold Proofs.CharClassFoldThm Proofs.CharClassCi Proofs.CharClassCi2 Proofs.CharClassCi3 Proofs.CharClassCi4 Proofs.CharClassCi5.
 
 (* ------------------------------------------------------------------------------------------------
    lookup_paths_agree: on a canonical class every lookup path is plain membership, for EVERY rune
@@ -186,10 +186,11 @@ Proof.
 Qed.
 Print Assumptions C16_char_in_denote_refuted_ci_negated_case_category.
 
-(* Partial, proved in full generality for the case-sensitive option sets (none, ECMAScript, RE2 and
-   their shorthand/POSIX tables) and every valid rune.  What is missing for the full statement:
-   invalid runes (refuted above) and IgnoreCase (covered below by the closed statement
-   C16_case_equiv_closed on the finite domain, and by the three-way correspondence leg). *)
+(* Partial (1), proved in full generality for the case-sensitive option sets (none, ECMAScript, RE2
+   and their shorthand/POSIX tables) and every valid rune.  Partial (2) below covers IgnoreCase.
+   What is missing for the full statement is exactly what the refutations above show (invalid runes,
+   negated cased-letter categories under IgnoreCase) plus, under IgnoreCase, members and runes outside
+   the generated table (where lcTable / ToLower and SimpleFold disagree, e.g. U+0130, U+00D7, U+1E9E). *)
 Theorem C16_char_in_denote_partial :
   forall (cat_in : Z -> Z -> bool) (simple_fold to_lower : Z -> Z) (fuel : nat) (s : csyn) (o : opts) (c : cls) (ch : Z),
     o_ci o = false -> wf_syn s -> valid_rune ch ->
@@ -197,6 +198,23 @@ Theorem C16_char_in_denote_partial :
     char_in cat_in c ch = denote cat_in simple_fold fuel (sem o s) ch.
 Proof. intros. eapply char_in_denote_cs; eauto. Qed.
 Print Assumptions C16_char_in_denote_partial.
+
+(* Partial (2), IgnoreCase (alone or with ECMAScript / RE2): for oracles that agree with the generated
+   table on dom_t, every bracket expression whose code-point members lie in good_dom (all of ASCII,
+   all plain upper/lower pairs of Latin-1, Greek, Cyrillic: C16_bad_points; so in particular ranges
+   with ASCII endpoints), with positive ASCII-table shorthands / POSIX names and without negated
+   cased-letter categories (ci_syn_ok), nested subtraction included, and every rune z of the table:
+   CharIn on the class the parser builds = set algebra with the code-point members folded over their
+   SimpleFold orbits (CFold).  This is C16's IgnoreCase domain. *)
+Theorem C16_char_in_denote_partial_ignorecase :
+  forall (cat_in : Z -> Z -> bool) (simple_fold to_lower : Z -> Z),
+    (forall x, In x dom_t -> simple_fold x = fold_t x /\ to_lower x = lower_t x) ->
+    forall (o : opts) (s : csyn) (c : cls) (z : Z),
+      o_ci o = true -> wf_syn s -> ci_syn_ok o s -> In z dom_t ->
+      elab cat_in simple_fold to_lower orbit_fuel s o = Ok c ->
+      char_in cat_in c z = denote cat_in simple_fold orbit_fuel (sem o s) z.
+Proof. intros cat_in sf tl Hag o s c z Hci. apply char_in_denote_ci; auto. Qed.
+Print Assumptions C16_char_in_denote_partial_ignorecase.
 
 (* ... and the class the parser builds is canonical at every level (so C16_lookup_paths_agree
    applies to it, also after PrepareCharSetASCIIBitmaps). *)
@@ -290,6 +308,26 @@ Proof.
   cbn zeta. eexists. split; [vm_compute; reflexivity|]. split; [reflexivity|].
   split; [cbn [wf_syn]; split; [repeat (apply Forall_cons; [unfold wf_item, max_rune; try exact I; lia|]); apply Forall_nil|split; [repeat (apply Forall_cons; [unfold wf_item, max_rune; lia|]); apply Forall_nil|exact I]]|].
   split; [cbn; repeat split; lia|]. split; vm_compute; reflexivity.
+Qed.
+
+(* (?i)[a-z-[b]] with the table as oracle: the hypotheses of C16_char_in_denote_partial_ignorecase hold,
+   the class is [A-Za-z\u017F\u212A-[Bb]], and 'B', 'b' are out while 'K', 'k', U+212A are in *)
+Example C16_witness_ignorecase :
+  let cat := fun (_ _ : Z) => false in
+  let s := CSyn false [IRange 97 122] (Some (CSyn false [IRange 98 98] None)) in
+  let o := Opts true false false in
+  wf_syn s /\ ci_syn_ok o s /\
+  exists c, elab cat fold_t lower_t orbit_fuel s o = Ok c /\
+            c = Cls [(65, 90); (97, 122); (383, 383); (8490, 8490)] []
+                    (Some (Cls [(66, 66); (98, 98)] [] None false false None)) false false None /\
+            map (char_in cat c) [66; 98; 75; 107; 8490; 383; 33] = [false; false; true; true; true; true; false] /\
+            map (denote cat fold_t orbit_fuel (sem o s)) [66; 98; 75; 107; 8490; 383; 33] = [false; false; true; true; true; true; false].
+Proof.
+  cbn zeta. split; [cbn [wf_syn]; split; [repeat (apply Forall_cons; [unfold wf_item, max_rune; lia|]); apply Forall_nil|split; [repeat (apply Forall_cons; [unfold wf_item, max_rune; lia|]); apply Forall_nil|exact I]]|].
+  split.
+  { cbn [ci_syn_ok]. split; [apply Forall_cons; [|apply Forall_nil]|split; [apply Forall_cons; [|apply Forall_nil]|exact I]];
+      cbn [ci_item_ok]; intros x Hx; apply ascii_good; lia. }
+  eexists. split; [vm_compute; reflexivity|]. split; [reflexivity|]. split; vm_compute; reflexivity.
 Qed.
 
 (* unsorted, overlapping, abutting ranges: canonicalize merges them; six ranges go through the binary search *)
